@@ -53,14 +53,14 @@ impl<'a> InstantiateBuilder<'a> {
 
         quote! {
             pub trait #trait_name {
-                fn #method_name < #(#used_generics),* > (code_id: u64, #(#parameters),* ) -> #sylvia ::cw_std::StdResult < #sylvia ::builder::instantiate::InstantiateBuilder> #where_clause;
+                fn #method_name < #(#used_generics),* > (sv_code_id: u64, #(#parameters),* ) -> #sylvia ::cw_std::StdResult < #sylvia ::builder::instantiate::InstantiateBuilder> #where_clause;
             }
 
             impl #trait_name for #sylvia ::builder::instantiate::InstantiateBuilder {
-                fn #method_name < #(#used_generics),* > (code_id: u64, #(#parameters,)* ) -> #sylvia ::cw_std::StdResult< #sylvia ::builder::instantiate::InstantiateBuilder> #where_clause {
+                fn #method_name < #(#used_generics),* > (sv_code_id: u64, #(#parameters,)* ) -> #sylvia ::cw_std::StdResult< #sylvia ::builder::instantiate::InstantiateBuilder> #where_clause {
                     let msg = #msg_name ::< #(#used_generics),* > ::new( #(#fields_names),* );
                     let msg = #sylvia ::cw_std::to_json_binary(&msg)?;
-                    Ok( #sylvia ::builder::instantiate::InstantiateBuilder::new(msg, code_id))
+                    Ok( #sylvia ::builder::instantiate::InstantiateBuilder::new(msg, sv_code_id))
                 }
             }
         }
